@@ -757,20 +757,24 @@ func lemmaEnc32Cat(a string, v int) {}
 //@   requires secsOK(op.T1) && secsOK(op.T2)
 //@   ensures[header] len(result) >= 12 && string(result)[0:4] == string(op.IaId[:]) && string(result)[4:8] == specEnc32(specSecs(int(op.T1))) && string(result)[8:12] == specEnc32(specSecs(int(op.T2)))
 //@   ensures[nested] nestedTail(result, 12, op.Options.Options)
+//@   ensures[no-options] len(op.Options.Options) == 0 ==> len(result) == 12
 
 //@ contract (*OptIAPD).ToBytes
 //@   requires secsOK(op.T1) && secsOK(op.T2)
 //@   ensures[header] len(result) >= 12 && string(result)[0:4] == string(op.IaId[:]) && string(result)[4:8] == specEnc32(specSecs(int(op.T1))) && string(result)[8:12] == specEnc32(specSecs(int(op.T2)))
 //@   ensures[nested] nestedTail(result, 12, op.Options.Options)
+//@   ensures[no-options] len(op.Options.Options) == 0 ==> len(result) == 12
 
 //@ contract (*OptIATA).ToBytes
 //@   ensures[header] len(result) >= 4 && string(result)[0:4] == string(op.IaId[:])
 //@   ensures[nested] nestedTail(result, 4, op.Options.Options)
+//@   ensures[no-options] len(op.Options.Options) == 0 ==> len(result) == 4
 
 //@ contract (*OptIAAddress).ToBytes
 //@   requires secsOK(op.PreferredLifetime) && secsOK(op.ValidLifetime)
 //@   ensures[header] len(result) >= 24 && string(result)[0:16] == specIP16(string(op.IPv6Addr)) && string(result)[16:20] == specEnc32(specSecs(int(op.PreferredLifetime))) && string(result)[20:24] == specEnc32(specSecs(int(op.ValidLifetime)))
 //@   ensures[nested] nestedTail(result, 24, op.Options.Options)
+//@   ensures[no-options] len(op.Options.Options) == 0 ==> len(result) == 24
 
 //@ contract (*OptIAPrefix).ToBytes
 //@   requires secsOK(op.PreferredLifetime) && secsOK(op.ValidLifetime)
@@ -1140,6 +1144,70 @@ func lemmaFixIAPrefix(data []byte) {
 		verifAssert(string(r.Prefix.IP) == string(q.Prefix.IP))
 		verifAssert(dhcpv4.SpecMaskOnes(string(r.Prefix.Mask)) == dhcpv4.SpecMaskOnes(string(q.Prefix.Mask)))
 	}
+}
+
+// The other container options, fixed part (identity association id, timers, address, lifetimes): what is decoded
+// survives re-encoding (nested options left out, as for the IA Prefix)
+//@ contract lemmaFixIANA
+func lemmaFixIANA(data []byte) {
+	var q OptIANA
+	if q.FromBytes(data) != nil {
+		return
+	}
+	q.Options.Options = nil
+	b := q.ToBytes()
+	lemmaU32At(string(b), 4, specSecs(int(q.T1)))
+	lemmaU32At(string(b), 8, specSecs(int(q.T2)))
+	var r OptIANA
+	err := r.FromBytes(b)
+	verifAssert(err == nil)
+	verifAssert(r.IaId == q.IaId && r.T1 == q.T1 && r.T2 == q.T2)
+}
+
+//@ contract lemmaFixIAPD
+func lemmaFixIAPD(data []byte) {
+	var q OptIAPD
+	if q.FromBytes(data) != nil {
+		return
+	}
+	q.Options.Options = nil
+	b := q.ToBytes()
+	lemmaU32At(string(b), 4, specSecs(int(q.T1)))
+	lemmaU32At(string(b), 8, specSecs(int(q.T2)))
+	var r OptIAPD
+	err := r.FromBytes(b)
+	verifAssert(err == nil)
+	verifAssert(r.IaId == q.IaId && r.T1 == q.T1 && r.T2 == q.T2)
+}
+
+//@ contract lemmaFixIATA
+func lemmaFixIATA(data []byte) {
+	var q OptIATA
+	if q.FromBytes(data) != nil {
+		return
+	}
+	q.Options.Options = nil
+	b := q.ToBytes()
+	var r OptIATA
+	err := r.FromBytes(b)
+	verifAssert(err == nil)
+	verifAssert(r.IaId == q.IaId)
+}
+
+//@ contract lemmaFixIAAddress
+func lemmaFixIAAddress(data []byte) {
+	var q OptIAAddress
+	if q.FromBytes(data) != nil {
+		return
+	}
+	q.Options.Options = nil
+	b := q.ToBytes()
+	lemmaU32At(string(b), 16, specSecs(int(q.PreferredLifetime)))
+	lemmaU32At(string(b), 20, specSecs(int(q.ValidLifetime)))
+	var r OptIAAddress
+	err := r.FromBytes(b)
+	verifAssert(err == nil)
+	verifAssert(string(r.IPv6Addr) == string(q.IPv6Addr) && r.PreferredLifetime == q.PreferredLifetime && r.ValidLifetime == q.ValidLifetime)
 }
 
 //@ contract lemmaFixRemoteID
